@@ -18,6 +18,7 @@ const (
 var (
 	typeOfValuePtr   = reflect.TypeOf(new(Value))
 	typeOfExecCtxPtr = reflect.TypeOf(new(ExecutionContext))
+	typeOfContext    = reflect.TypeOf(Context(nil))
 )
 
 type variablePart struct {
@@ -284,9 +285,12 @@ func (vr *variableResolver) resolve(ctx *ExecutionContext) (*Value, error) {
 			// Before resolving the pointer, let's see if we have a method to call
 			// Problem with resolving the pointer is we're changing the receiver
 			isFunc := false
-			if part.typ == varTypeIdent && !(current.Kind() == reflect.Ptr && current.IsNil()) {
+			if part.typ == varTypeIdent && !(current.Kind() == reflect.Ptr && current.IsNil()) && current.Type() != typeOfContext {
 				// (no method is called on a nil pointer: a value method would panic, and a
-				// nil along the way yields nil)
+				// nil along the way yields nil. And none on a Context - the map type callers
+				// nest to build their data: its Update method writes the map, so a template
+				// could change the caller's Context and the set's Globals; a Context is a map
+				// of names to a template, nothing else)
 				funcValue := current.MethodByName(part.s)
 				if funcValue.IsValid() {
 					current = funcValue
